@@ -284,6 +284,15 @@ func (n *CandidateNode) GetValueRep() (interface{}, error) {
 	return n.Value, nil
 }
 
+// unwrapAlias gives the node an alias stands for (the node itself when it is no alias)
+func (n *CandidateNode) unwrapAlias() *CandidateNode {
+	node := n
+	for node.Kind == AliasNode && node.Alias != nil {
+		node = node.Alias
+	}
+	return node
+}
+
 func (n *CandidateNode) guessTagFromCustomType() string {
 	if strings.HasPrefix(n.Tag, "!!") {
 		return n.Tag
